@@ -49,7 +49,12 @@ pub fn panic_class(msg: &str) -> &'static str {
         "scratch"
     } else if msg.contains("out of range") || msg.contains("out of bounds") || msg.contains("range end index") {
         "bounds"
-    } else if msg.contains("assertion") || msg.contains("size:") || msg.contains("cols:") || msg.contains("invalid argument") {
+    } else if msg.contains("assertion")
+        || msg.contains("size:")
+        || msg.contains("cols:")
+        || msg.contains("invalid argument")
+        || msg.contains("effective_k:")
+    {
         "assert"
     } else {
         "other"
@@ -256,13 +261,21 @@ macro_rules! backend_impl {
                     Ok(Ok(())) => {}
                     _ => return None,
                 }
-                let mut rnx = CKKSPlaintextVecRnx::<f64>::alloc(ctx.n).ok()?;
-                rnx.decode_from_znx(&z).ok()?;
-                let m = ctx.n / 2;
-                let mut re = vec![0.0; m];
-                let mut im = vec![0.0; m];
-                ctx.encoder.decode_reim(&rnx, &mut re, &mut im).ok()?;
-                Some((re, im))
+                // decoding runs under overflow checks here: a plaintext whose integer does not fit the
+                // i64/i128 path wraps in the library (documented limb behaviour) and would abort the harness
+                let n = ctx.n;
+                let enc = &ctx.encoder;
+                std::panic::catch_unwind(std::panic::AssertUnwindSafe(|| {
+                    let mut rnx = CKKSPlaintextVecRnx::<f64>::alloc(n).ok()?;
+                    rnx.decode_from_znx(&z).ok()?;
+                    let m = n / 2;
+                    let mut re = vec![0.0; m];
+                    let mut im = vec![0.0; m];
+                    enc.decode_reim(&rnx, &mut re, &mut im).ok()?;
+                    Some((re, im))
+                }))
+                .ok()
+                .flatten()
             }
 
             fn nat(s: &str) -> usize {
@@ -1031,8 +1044,8 @@ macro_rules! backend_impl {
 
 backend_impl!(ntt120ref, poulpy_cpu_ref::NTT120Ref);
 backend_impl!(fft64ref, poulpy_cpu_ref::FFT64Ref);
-// AVX back ends: poulpy-ckks implements CKKSImpl for them only under its `enable-avx` feature, which
-// harness/Cargo.toml (shared file) does not turn on; the CKKS layer is back-end generic code.
+backend_impl!(ntt120avx, poulpy_cpu_avx::NTT120Avx);
+backend_impl!(fft64avx, poulpy_cpu_avx::FFT64Avx);
 
 pub fn run(_args: &[String]) {
     std::panic::set_hook(Box::new(|info| {
@@ -1049,6 +1062,8 @@ pub fn run(_args: &[String]) {
     }));
     let mut c1: HashMap<String, ntt120ref::Ctx> = HashMap::new();
     let mut c2: HashMap<String, fft64ref::Ctx> = HashMap::new();
+    let mut c3: HashMap<String, ntt120avx::Ctx> = HashMap::new();
+    let mut c4: HashMap<String, fft64avx::Ctx> = HashMap::new();
     let stdin = std::io::stdin();
     let stdout = std::io::stdout();
     let mut out = stdout.lock();
@@ -1070,6 +1085,8 @@ pub fn run(_args: &[String]) {
             let r = std::panic::catch_unwind(std::panic::AssertUnwindSafe(|| match be {
                 "ntt120ref" => ntt120ref::run_line(&mut c1, &t[1..]),
                 "fft64ref" => fft64ref::run_line(&mut c2, &t[1..]),
+                "ntt120avx" => ntt120avx::run_line(&mut c3, &t[1..]),
+                "fft64avx" => fft64avx::run_line(&mut c4, &t[1..]),
                 _ => "bad-backend".to_string(),
             }));
             match r {
